@@ -120,3 +120,171 @@ package ply
 //@   requires buffer_is_one_record: len(bv4pw.buf) == 4 * bv4pw.format.Size()
 //@   returns err
 //@   ensures record_size: err == nil ==> written(out) == old(written(out)) + 4 * bv4pw.format.Size()
+
+// ---- C08: vertex property readers find their columns in any header order -------------------------------
+// An element is a list of properties (interface values; vertex elements hold ScalarProperty values).
+// sp(e, j) is the j-th property, colOff(e, j) the number of bytes before it in a binary record: an uninterpreted
+// function pinned down by the definitional precondition def_colOff (a conservative extension: it defines the
+// prefix sums of the declared sizes, it assumes nothing about the code).  A builder that reports a component
+// offset reports the offset of a column with that component's NAME whose TYPE is the group's common type;
+// it returns a reader exactly when every component was found.  "exit" clauses are postconditions over the
+// function's own locals at every return.
+
+//@ spec sp(e Element, j int) ScalarProperty = as(e.Properties[j], ScalarProperty)
+//@ spec knownType(t ScalarPropertyType) bool = t == Char || t == UChar || t == Short || t == UShort || t == Int || t == UInt || t == Float || t == Double
+//@ spec allScalar(e Element) bool = forall j int :: 0 <= j && j < len(e.Properties) ==> typeIs(e.Properties[j], ScalarProperty) && knownType(sp(e, j).Type)
+//@ spec colOff(e Element, j int) int
+//@ spec colOffDefined(e Element) bool = colOff(e, 0) == 0 && (forall j int :: 0 <= j && j < len(e.Properties) ==> colOff(e, j + 1) == colOff(e, j) + sp(e, j).Size())
+//@ spec asciiCol(e Element, name string, col int, t ScalarPropertyType) bool = exists c int :: 0 <= c && c < len(e.Properties) && sp(e, c).PropertyName == name && col == c && sp(e, c).Type == t
+//@ spec binCol(e Element, name string, off int, t ScalarPropertyType) bool = exists c int :: 0 <= c && c < len(e.Properties) && sp(e, c).PropertyName == name && off == colOff(e, c) && sp(e, c).Type == t
+
+//@ func ScalarProperty.Size pure
+//@   props C08
+
+//@ func Vector3PropertyReader.buildBinary
+//@   props C08
+//@   requires all_scalar: allScalar(element)
+//@   requires def_colOff: colOffDefined(element)
+//@   requires element.Count >= 0
+//@   returns r
+//@   exit x_is_a_column_named_x: xOffset > -1 ==> binCol(element, v3pr.PlyPropertyX, xOffset, scalarType)
+//@   exit y_is_a_column_named_y: yOffset > -1 ==> binCol(element, v3pr.PlyPropertyY, yOffset, scalarType)
+//@   exit z_is_a_column_named_z: zOffset > -1 ==> binCol(element, v3pr.PlyPropertyZ, zOffset, scalarType)
+//@   exit reader_iff_all_found: (r != nil) <==> (xOffset > -1 && yOffset > -1 && zOffset > -1)
+//@   exit record_size: totalSize == colOff(element, len(element.Properties))
+//@   exit reader_holds_what_was_found: r != nil ==> typeIs(r, ptr_builtBinaryVector3PropertyReader) && (let b = deref(as(r, ptr_builtBinaryVector3PropertyReader)) in
+//@       b.xOffset == xOffset && b.yOffset == yOffset && b.zOffset == zOffset && b.scalarType == scalarType && len(b.arr) == element.Count && b.modelAttribute == v3pr.ModelAttribute)
+//@   loop 1:
+//@     invariant 0 <= $i && $i <= len(element.Properties) && totalSize == colOff(element, $i) && totalSize >= 0
+//@     invariant xOffset >= -1 && yOffset >= -1 && zOffset >= -1
+//@     invariant no_type_no_columns: scalarType == "" ==> xOffset == -1 && yOffset == -1 && zOffset == -1
+//@     invariant x_col: xOffset > -1 ==> binCol(element, v3pr.PlyPropertyX, xOffset, scalarType)
+//@     invariant y_col: yOffset > -1 ==> binCol(element, v3pr.PlyPropertyY, yOffset, scalarType)
+//@     invariant z_col: zOffset > -1 ==> binCol(element, v3pr.PlyPropertyZ, zOffset, scalarType)
+
+//@ func Vector2PropertyReader.buildBinary
+//@   props C08
+//@   requires all_scalar: allScalar(element)
+//@   requires def_colOff: colOffDefined(element)
+//@   requires element.Count >= 0
+//@   returns r
+//@   exit x_is_a_column_named_x: xOffset > -1 ==> binCol(element, v2pr.PlyPropertyX, xOffset, scalarType)
+//@   exit y_is_a_column_named_y: yOffset > -1 ==> binCol(element, v2pr.PlyPropertyY, yOffset, scalarType)
+//@   exit reader_iff_all_found: (r != nil) <==> (xOffset > -1 && yOffset > -1)
+//@   exit record_size: totalSize == colOff(element, len(element.Properties))
+//@   exit reader_holds_what_was_found: xOffset > -1 && yOffset > -1 ==> typeIs(r, ptr_builtVector2PropertyReader) && (let b = deref(as(r, ptr_builtVector2PropertyReader)) in
+//@       b.xOffset == xOffset && b.yOffset == yOffset && b.scalarType == scalarType && len(b.arr) == element.Count && b.modelAttribute == v2pr.ModelAttribute)
+//@   loop 1:
+//@     invariant 0 <= $i && $i <= len(element.Properties) && totalSize == colOff(element, $i) && totalSize >= 0
+//@     invariant xOffset >= -1 && yOffset >= -1
+//@     invariant no_type_no_columns: scalarType == "" ==> xOffset == -1 && yOffset == -1
+//@     invariant x_col: xOffset > -1 ==> binCol(element, v2pr.PlyPropertyX, xOffset, scalarType)
+//@     invariant y_col: yOffset > -1 ==> binCol(element, v2pr.PlyPropertyY, yOffset, scalarType)
+
+//@ func Vector2PropertyReader.buildAscii
+//@   props C08
+//@   requires all_scalar: allScalar(element)
+//@   requires element.Count >= 0
+//@   returns r
+//@   exit x_is_a_column_named_x: xOffset > -1 ==> asciiCol(element, v2pr.PlyPropertyX, xOffset, scalarType)
+//@   exit y_is_a_column_named_y: yOffset > -1 ==> asciiCol(element, v2pr.PlyPropertyY, yOffset, scalarType)
+//@   exit reader_iff_all_found: (r != nil) <==> (xOffset > -1 && yOffset > -1)
+//@   exit reader_holds_what_was_found: xOffset > -1 && yOffset > -1 ==> typeIs(r, ptr_builtAsciiVector2PropertyReader) && (let b = deref(as(r, ptr_builtAsciiVector2PropertyReader)) in
+//@       b.xOffset == xOffset && b.yOffset == yOffset && b.scalarType == scalarType && len(b.arr) == element.Count && b.modelAttribute == v2pr.ModelAttribute)
+//@   loop 1:
+//@     invariant 0 <= $i && $i <= len(element.Properties)
+//@     invariant xOffset >= -1 && yOffset >= -1
+//@     invariant no_type_no_columns: scalarType == "" ==> xOffset == -1 && yOffset == -1
+//@     invariant x_col: xOffset > -1 ==> asciiCol(element, v2pr.PlyPropertyX, xOffset, scalarType)
+//@     invariant y_col: yOffset > -1 ==> asciiCol(element, v2pr.PlyPropertyY, yOffset, scalarType)
+
+//@ func Vector3PropertyReader.buildAscii
+//@   props C08
+//@   requires all_scalar: allScalar(element)
+//@   requires element.Count >= 0
+//@   returns r
+//@   exit x_is_a_column_named_x: xOffset > -1 ==> asciiCol(element, v3pr.PlyPropertyX, xOffset, scalarType)
+//@   exit y_is_a_column_named_y: yOffset > -1 ==> asciiCol(element, v3pr.PlyPropertyY, yOffset, scalarType)
+//@   exit z_is_a_column_named_z: zOffset > -1 ==> asciiCol(element, v3pr.PlyPropertyZ, zOffset, scalarType)
+//@   exit reader_iff_all_found: (r != nil) <==> (xOffset > -1 && yOffset > -1 && zOffset > -1)
+//@   exit reader_holds_what_was_found: xOffset > -1 && yOffset > -1 && zOffset > -1 ==> typeIs(r, ptr_builtAsciiVector3PropertyReader) && (let b = deref(as(r, ptr_builtAsciiVector3PropertyReader)) in
+//@       b.xOffset == xOffset && b.yOffset == yOffset && b.zOffset == zOffset && b.scalarType == scalarType && len(b.arr) == element.Count && b.modelAttribute == v3pr.ModelAttribute)
+//@   loop 1:
+//@     invariant 0 <= $i && $i <= len(element.Properties)
+//@     invariant xOffset >= -1 && yOffset >= -1 && zOffset >= -1
+//@     invariant no_type_no_columns: scalarType == "" ==> xOffset == -1 && yOffset == -1 && zOffset == -1
+//@     invariant x_col: xOffset > -1 ==> asciiCol(element, v3pr.PlyPropertyX, xOffset, scalarType)
+//@     invariant y_col: yOffset > -1 ==> asciiCol(element, v3pr.PlyPropertyY, yOffset, scalarType)
+//@     invariant z_col: zOffset > -1 ==> asciiCol(element, v3pr.PlyPropertyZ, zOffset, scalarType)
+
+//@ func Vector4PropertyReader.buildBinary
+//@   props C08
+//@   requires all_scalar: allScalar(element)
+//@   requires def_colOff: colOffDefined(element)
+//@   requires element.Count >= 0
+//@   returns r
+//@   exit x_is_a_column_named_x: xOffset > -1 ==> binCol(element, v4pr.PlyPropertyX, xOffset, scalarType)
+//@   exit y_is_a_column_named_y: yOffset > -1 ==> binCol(element, v4pr.PlyPropertyY, yOffset, scalarType)
+//@   exit z_is_a_column_named_z: zOffset > -1 ==> binCol(element, v4pr.PlyPropertyZ, zOffset, scalarType)
+//@   exit w_is_a_column_named_w: wOffset > -1 ==> binCol(element, v4pr.PlyPropertyW, wOffset, scalarType)
+//@   exit no_reader_without_xyz: !(xOffset > -1 && yOffset > -1 && zOffset > -1) ==> r == nil
+//@   exit four_components_four_reader: xOffset > -1 && yOffset > -1 && zOffset > -1 && wOffset > -1 ==> r != nil
+//@   exit record_size: totalSize == colOff(element, len(element.Properties))
+//@   exit reader_holds_what_was_found: xOffset > -1 && yOffset > -1 && zOffset > -1 && wOffset > -1 ==> typeIs(r, ptr_builtVector4PropertyReader) && (let b = deref(as(r, ptr_builtVector4PropertyReader)) in
+//@       b.xOffset == xOffset && b.yOffset == yOffset && b.zOffset == zOffset && b.wOffset == wOffset && b.scalarType == scalarType && len(b.arr) == element.Count && b.modelAttribute == v4pr.ModelAttribute)
+//@   loop 1:
+//@     invariant 0 <= $i && $i <= len(element.Properties) && totalSize == colOff(element, $i) && totalSize >= 0
+//@     invariant xOffset >= -1 && yOffset >= -1 && zOffset >= -1 && wOffset >= -1
+//@     invariant no_type_no_columns: scalarType == "" ==> xOffset == -1 && yOffset == -1 && zOffset == -1 && wOffset == -1
+//@     invariant x_col: xOffset > -1 ==> binCol(element, v4pr.PlyPropertyX, xOffset, scalarType)
+//@     invariant y_col: yOffset > -1 ==> binCol(element, v4pr.PlyPropertyY, yOffset, scalarType)
+//@     invariant z_col: zOffset > -1 ==> binCol(element, v4pr.PlyPropertyZ, zOffset, scalarType)
+//@     invariant w_col: wOffset > -1 ==> binCol(element, v4pr.PlyPropertyW, wOffset, scalarType)
+
+//@ func Vector4PropertyReader.buildAscii
+//@   props C08
+//@   requires all_scalar: allScalar(element)
+//@   requires element.Count >= 0
+//@   returns r
+//@   exit x_is_a_column_named_x: xOffset > -1 ==> asciiCol(element, v4pr.PlyPropertyX, xOffset, scalarType)
+//@   exit y_is_a_column_named_y: yOffset > -1 ==> asciiCol(element, v4pr.PlyPropertyY, yOffset, scalarType)
+//@   exit z_is_a_column_named_z: zOffset > -1 ==> asciiCol(element, v4pr.PlyPropertyZ, zOffset, scalarType)
+//@   exit w_is_a_column_named_w: wOffset > -1 ==> asciiCol(element, v4pr.PlyPropertyW, wOffset, scalarType)
+//@   exit no_reader_without_xyz: !(xOffset > -1 && yOffset > -1 && zOffset > -1) ==> r == nil
+//@   exit four_components_four_reader: xOffset > -1 && yOffset > -1 && zOffset > -1 && wOffset > -1 ==> r != nil
+//@   exit reader_holds_what_was_found: xOffset > -1 && yOffset > -1 && zOffset > -1 && wOffset > -1 ==> typeIs(r, ptr_builtAsciiVector4PropertyReader) && (let b = deref(as(r, ptr_builtAsciiVector4PropertyReader)) in
+//@       b.xOffset == xOffset && b.yOffset == yOffset && b.zOffset == zOffset && b.wOffset == wOffset && b.scalarType == scalarType && len(b.arr) == element.Count && b.modelAttribute == v4pr.ModelAttribute)
+//@   loop 1:
+//@     invariant 0 <= $i && $i <= len(element.Properties)
+//@     invariant xOffset >= -1 && yOffset >= -1 && zOffset >= -1 && wOffset >= -1
+//@     invariant no_type_no_columns: scalarType == "" ==> xOffset == -1 && yOffset == -1 && zOffset == -1 && wOffset == -1
+//@     invariant x_col: xOffset > -1 ==> asciiCol(element, v4pr.PlyPropertyX, xOffset, scalarType)
+//@     invariant y_col: yOffset > -1 ==> asciiCol(element, v4pr.PlyPropertyY, yOffset, scalarType)
+//@     invariant z_col: zOffset > -1 ==> asciiCol(element, v4pr.PlyPropertyZ, zOffset, scalarType)
+//@     invariant w_col: wOffset > -1 ==> asciiCol(element, v4pr.PlyPropertyW, wOffset, scalarType)
+
+//@ func Vector1PropertyReader.buildBinary
+//@   props C08
+//@   requires all_scalar: allScalar(element)
+//@   requires def_colOff: colOffDefined(element)
+//@   requires element.Count >= 0
+//@   returns r
+//@   ensures reader_is_for_a_column_with_that_name: r != nil ==> typeIs(r, ptr_builtVector1PropertyReader) && (let b = deref(as(r, ptr_builtVector1PropertyReader)) in
+//@       binCol(element, v1pr.PlyProperty, b.offset, b.scalarType) && len(b.arr) == element.Count && b.modelAttribute == v1pr.ModelAttribute)
+//@   ensures nil_only_when_absent: r == nil ==> (forall c int :: 0 <= c && c < len(element.Properties) ==> sp(element, c).PropertyName != v1pr.PlyProperty)
+//@   loop 1:
+//@     invariant 0 <= $i && $i <= len(element.Properties) && totalSize == colOff(element, $i) && totalSize >= 0
+//@     invariant not_seen_yet: forall c int :: 0 <= c && c < $i ==> sp(element, c).PropertyName != v1pr.PlyProperty
+
+//@ func Vector1PropertyReader.buildAscii
+//@   props C08
+//@   requires all_scalar: allScalar(element)
+//@   requires element.Count >= 0
+//@   returns r
+//@   ensures reader_is_for_a_column_with_that_name: r != nil ==> typeIs(r, ptr_builtAsciiVector1PropertyReader) && (let b = deref(as(r, ptr_builtAsciiVector1PropertyReader)) in
+//@       0 <= b.offset && b.offset < len(element.Properties) && sp(element, b.offset).PropertyName == v1pr.PlyProperty && len(b.arr) == element.Count && b.modelAttribute == v1pr.ModelAttribute)
+//@   ensures ascii_reader_knows_the_column_type: r != nil ==> (let b = deref(as(r, ptr_builtAsciiVector1PropertyReader)) in b.scalarType == sp(element, b.offset).Type)
+//@   ensures nil_only_when_absent: r == nil ==> (forall c int :: 0 <= c && c < len(element.Properties) ==> sp(element, c).PropertyName != v1pr.PlyProperty)
+//@   loop 1:
+//@     invariant 0 <= $i && $i <= len(element.Properties)
+//@     invariant not_seen_yet: forall c int :: 0 <= c && c < $i ==> sp(element, c).PropertyName != v1pr.PlyProperty
